@@ -25,8 +25,10 @@ RULE = ('case i: one seeded source text - random Unicode text, random bytes, tok
         'duplicate / replace tokens), truncated at a token boundary (end-of-file spans), ill-typed by type '
         'and flavour substitution, or ill-typed by tree surgery (alien expressions in place of well-typed ones, '
         'assignments to string elements / constants / array variables, empty values used as values, wrong '
-        'arity, misplaced return/break/try/preempt); nesting depth <= 40 - and one seeded option vector (-m in {0,8,12,16,24,32,'
-        '64,-8}, -s in {-1,0,1,20,500,10^6,10^9}, --unchecked, --lint, with/without -o). API oracle: only a '
+        'arity, misplaced return/break/try/preempt), or a small valid-looking program around one token of '
+        'unusual length (integer literals of 1..9000 digits in four bases, \\u{...}/\\x escapes with many digits, long '
+        'names/strings/comments); nesting depth <= 40 - and one seeded option vector (-m in {0,8,12,16,24,32,'
+        '64,-8,14400,80000}, -s in {-1,0,1,20,500,10^6,10^9}, --unchecked, --lint, with/without -o). API oracle: only a '
         'CompilerError may escape parse -> evaluate -> CodeGen -> gen_lines, get_info() renders and every span '
         'lies inside the source. CLI oracle (hidc.__main__.main() in-process on a fake file system): failure = '
         'non-zero status, diagnostic on stderr, no traceback, no output file; success = status 0 and a file '
@@ -86,6 +88,53 @@ def nested(rnd):
     return 'empty @is_you() { int[] a = [1]; write(a' + '[a' * d + '[0]' + ']' * d + '); }'
 
 
+def long_token(rnd):
+    """Valid-looking programs around one token of unusual length: integer literals of thousands of
+    digits in every base, \\u{...} escapes with many hex digits, long names, strings and comments."""
+    n = rnd.choice((1, 5, 19, 20, 40, 300, 4299, 4300, 4301, 5000, 9000))
+    k = rnd.randrange(12)
+    d = lambda alphabet: ''.join(rnd.choice(alphabet) for _ in range(n))   # noqa: E731
+    if k == 0:
+        tok = rnd.choice('123456789') + d('0123456789')
+    elif k == 1:
+        tok = '0x' + d('0123456789abcdefABCDEF')
+    elif k == 2:
+        tok = '0o' + d('01234567')
+    elif k == 3:
+        tok = '0b' + d('01')
+    elif k == 4:
+        tok = '1' + '_0' * n
+    elif k == 5:
+        tok = "'\\u{" + d('0123456789abcdefABCDEF') + "}'"
+    elif k == 6:
+        tok = '"a\\u{' + rnd.choice(('0', 'F', '1', '')) + d('0F') + '}b"'
+    elif k == 7:
+        tok = '"' + d('abc xyz\t') + '"'
+    elif k == 8:
+        tok = 'v' + d('abcXYZ_019')
+        return f'empty @is_you() {{ int {tok} = 1; write({tok}); }}'
+    elif k == 9:
+        return f'// {d("abc /*")}\nempty @is_you() {{ write(1); }} // {d("xyz")}'
+    elif k == 10:
+        tok = '0' * n + rnd.choice(('', '7', '08', 'x1', '_'))
+    else:
+        tok = "'\\x" + d('0123456789abcdef') + "'"
+    shape = rnd.randrange(7)
+    if shape == 0:
+        return f'empty @is_you() {{ write({tok}); }}'
+    if shape == 1:
+        return f'const int G = {tok};\nempty @is_you() {{ writeln(G % 7); }}'
+    if shape == 2:
+        return f'empty @is_you() {{ int a[{tok}]; a[0] = 1; }}'
+    if shape == 3:
+        return f'empty @is_you() {{ int[] a = [1, 2]; write(a[{tok}]); }}'
+    if shape == 4:
+        return f'empty @is_you(int n) {{ if (n < {tok}) {{ write(n / {tok}); }} }}'
+    if shape == 5:
+        return f'empty @is_you() {{ byte b = {tok} is byte; write(b); write(-{tok} == {tok}); }}'
+    return f'int g = {tok} * {tok};\nempty @is_you() {{ write(g); sleep({tok}); }}'
+
+
 def mutate(rnd, toks):
     toks = list(toks)
     for _ in range(rnd.randrange(1, 4)):
@@ -125,6 +174,8 @@ def make_source(rnd):
         return 'bytes', bytes(rnd.randrange(256) for _ in range(rnd.randrange(0, 120)))
     if c < 0.16:
         return 'nested', nested(rnd)
+    if c < 0.20:
+        return 'longtoken', long_token(rnd)
     k = rnd.random()
     if k < 0.15:
         from .c16 import G16
@@ -244,7 +295,7 @@ def illtype(rnd, prog):
     return prog
 
 
-M_OPTS = (0, 8, 12, 16, 24, 32, 64, -8)
+M_OPTS = (0, 8, 12, 16, 24, 32, 64, -8, 16, 24, 32, 14400, 80000)
 S_OPTS = (-1, 0, 1, 20, 500, 10 ** 6, 10 ** 9)
 
 
